@@ -187,6 +187,9 @@ func jobsFor(prop, tier string) []Job {
 				sj.Prop = "C17"
 				if sj.Kind == "json12" {
 					sj.P["twobyte"] = 1
+					if q { // the loads themselves are what matters for totality: smaller prior states, one follow-up step
+						sj.P["prior"], sj.P["depth"] = 1, 1
+					}
 				}
 				jobs = append(jobs, sj)
 			}
